@@ -9,7 +9,7 @@
   model that pair is `(Phase.rank, Phase.pct)` of `Cfg.phaseAt`.
 -/
 import MxModel.Gen.KPd
-import MxModel.Core.PriceDiscovery
+import MxModel.Lemmas.PdSpec
 
 namespace Mx.KPd
 open Mx Mx.Gen Mx.PD
@@ -141,10 +141,113 @@ theorem calculate_price_state (s : St) :
     KPd.calculate_price s.A.bal s.L.bal s.cfg.prec = s.price :=
   calculate_price_eq s.cfg s.L.bal s.A.bal
 
+/-! ### the arithmetic cores of `withdraw`, `deposit`, `redeem` (fragments of lib.rs) -/
+
+/-- the penalty / refund computation of `withdraw` (source lines `let penalty_amount …; let
+    withdraw_amount …`): penalty `⌊amount · pct / 10^13⌋`, refund = amount − penalty (checked).
+    Result order (penalty_amount, withdraw_amount) -/
+theorem withdraw_amounts_eq (amt pct : Nat) :
+    KPd.withdraw_amounts amt pct =
+      (sub? amt (amt * pct / MAXP)).map fun wd => (amt * pct / MAXP, wd) := by
+  have hM : MAXP = 10000000000000 := rfl
+  have h0 : ¬ (10000000000000 = 0) := by omega
+  simp only [KPd.withdraw_amounts, hM, div?, if_neg h0, Option.bind_eq_bind, Option.bind_some,
+    Option.pure_def]
+  cases sub? amt (amt * pct / 10000000000000) <;> rfl
+
+/-- the price guard of `withdraw`: the price after the balance update must not fall below the
+    minimum; aborts also when no launched tokens are left -/
+theorem withdraw_price_check_eq (c : Cfg) (l a : Nat) :
+    KPd.withdraw_price_check a l c.minPrice c.prec =
+      (priceOf c l a).bind fun p => if c.minPrice ≤ p then some p else none := by
+  simp only [KPd.withdraw_price_check, calculate_price_eq, Option.bind_eq_bind, ge_iff_le,
+    Option.pure_def]
+  cases priceOf c l a with
+  | none => rfl
+  | some p =>
+    by_cases h : c.minPrice ≤ p
+    · simp only [Option.bind_some, req, if_pos h]
+    · simp only [Option.bind_some, req, if_neg h, Option.bind_none]
+
+/-- the price guard of `deposit`: price 0, or not below the minimum, or the payment is the
+    accepted token (token identifiers are the redeem nonces of the model's sides) -/
+theorem deposit_price_check_eq (c : Cfg) (l a : Nat) (t : Tok) :
+    KPd.deposit_price_check a Tok.accepted.nonce l c.minPrice t.nonce c.prec =
+      (priceOf c l a).bind fun p =>
+        if p = 0 ∨ c.minPrice ≤ p ∨ t = .accepted then some p else none := by
+  simp only [KPd.deposit_price_check, calculate_price_eq, Option.bind_eq_bind, ge_iff_le,
+    Option.pure_def]
+  cases priceOf c l a with
+  | none => rfl
+  | some p =>
+    have ht : t.nonce = Tok.accepted.nonce ↔ t = .accepted := by
+      cases t <;> simp [Tok.nonce]
+    by_cases h : p = 0 ∨ c.minPrice ≤ p ∨ t = .accepted
+    · have h' : (p = 0 ∨ c.minPrice ≤ p) ∨ t.nonce = Tok.accepted.nonce := by
+        rcases h with h | h | h
+        · exact Or.inl (Or.inl h)
+        · exact Or.inl (Or.inr h)
+        · exact Or.inr (ht.mpr h)
+      simp only [Option.bind_some, req, if_pos h', if_pos h]
+    · have h' : ¬ ((p = 0 ∨ c.minPrice ≤ p) ∨ t.nonce = Tok.accepted.nonce) := by
+        intro c'; apply h
+        rcases c' with (c' | c') | c'
+        · exact Or.inl c'
+        · exact Or.inr (Or.inl c')
+        · exact Or.inr (Or.inr (ht.mp c'))
+      simp only [Option.bind_some, req, if_neg h', if_neg h, Option.bind_none]
+
+/-- the share computation of `redeem` (`compute_bought_tokens`): `⌊other-side balance · amount /
+    redeem supply⌋`, aborting on a zero supply -/
+theorem bought_tokens_amount_eq (amt sup bal : Nat) :
+    KPd.bought_tokens_amount amt sup bal = if sup = 0 then none else some (bal * amt / sup) := by
+  simp only [KPd.bought_tokens_amount, div?, Option.bind_eq_bind, Option.pure_def]
+  split <;> rfl
+
+/-- a successful model `withdraw` runs the source's penalty computation and price guard with the
+    model's refund `o.v1`, penalty `o.v2` and the price of the new state -/
+theorem withdraw_runs_source {s s' : St} {c : Nat} {t : Tok} {amt : Nat} {o : Out}
+    (h : withdraw s c t amt = some (s', o)) :
+    KPd.withdraw_amounts amt s.phase.pct = some (o.v2, o.v1) ∧
+    ∃ p, s'.price = some p ∧
+      KPd.withdraw_price_check s'.A.bal s'.L.bal s'.cfg.minPrice s'.cfg.prec = some p := by
+  obtain ⟨p, pen, _, _, _, hpen, hle, _, _, _, _, hprice, hmin, rfl, hs'⟩ := withdraw_spec h
+  have hcfg : s'.cfg = s.cfg := by rw [hs']; cases t <;> rfl
+  refine ⟨?_, p, hprice, ?_⟩
+  · rw [withdraw_amounts_eq, ← hpen]
+    simp only [sub?, if_pos hle, Option.map_some]
+  · have hp : priceOf s'.cfg s'.L.bal s'.A.bal = some p := hprice
+    rw [withdraw_price_check_eq, hp, hcfg]
+    simp only [Option.bind_some, if_pos hmin]
+
+/-- a successful model `deposit` passes the source's price guard on the new balances -/
+theorem deposit_runs_source {s s' : St} {c : Nat} {t : Tok} {amt : Nat} {o : Out}
+    (h : deposit s c t amt = some (s', o)) :
+    ∃ p, s'.price = some p ∧
+      KPd.deposit_price_check s'.A.bal Tok.accepted.nonce s'.L.bal s'.cfg.minPrice t.nonce
+        s'.cfg.prec = some p := by
+  obtain ⟨p, _, _, _, _, hprice, hguard, _, hs'⟩ := deposit_spec h
+  have hcfg : s'.cfg = s.cfg := by rw [hs']; cases t <;> rfl
+  refine ⟨p, hprice, ?_⟩
+  have hp : priceOf s'.cfg s'.L.bal s'.A.bal = some p := hprice
+  rw [deposit_price_check_eq, hp, hcfg]
+  simp only [Option.bind_some, if_pos hguard]
+
+/-- a successful model `redeem` pays exactly what the source's `compute_bought_tokens` computes -/
+theorem redeem_runs_source {s s' : St} {c : Nat} {t : Tok} {amt : Nat} {o : Out}
+    (h : redeem s c t amt = some (s', o)) :
+    KPd.bought_tokens_amount amt (s.side t).sup (s.side t.other).bal = some o.v1 := by
+  obtain ⟨bought, _, _, _, _, hsup, hb, _, rfl, _⟩ := redeem_spec h
+  rw [bought_tokens_amount_eq, if_neg hsup, hb]
+
 example : KPd.get_current_phase 25 7 10 11 10 60 10 10 = some (2, 35) := by decide
 example : KPd.get_current_phase 5 7 10 11 10 60 10 10 = some (0, 0) := by decide
 example : KPd.get_current_phase 35 7 10 11 10 60 10 10 = some (3, 7) := by decide
 example : KPd.get_current_phase 25 7 10 11 10 5 10 10 = none := by decide
 example : KPd.calculate_price 30 0 100 = none := by decide
+example : KPd.withdraw_amounts 1000 2500000000000 = some (250, 750) := by decide
+example : KPd.bought_tokens_amount 10 0 500 = none := by decide
+example : KPd.deposit_price_check 5 2 100 10 1 100 = none := by decide
+example : KPd.deposit_price_check 5 2 100 10 2 100 = some 5 := by decide
 
 end Mx.KPd
